@@ -49,6 +49,10 @@ fn main() {
         c18::fresh_main(args[2].parse().unwrap_or(0), args[3].parse().unwrap_or(0));
         return;
     }
+    if args[1] == "c03-deep" && args.len() >= 3 {
+        e1::deep_child(args[2].parse().unwrap_or(0));
+        return;
+    }
     if args[1] == "replay" {
         std::process::exit(replay(&args[2]));
     }
